@@ -55,7 +55,89 @@ def _targets(rng, spaces, nmax, spin):
     return out
 
 
+def run_minimize(item):
+    """indices.minimize_tensor_indices (used by remove_tensor, derivative and the factorisation of
+    intermediates) on index tuples with mixed spaces and spins: the returned names are the lowest
+    non-target names per space and spin (direct), no permutation touches a target index (direct),
+    and renaming the tensor while permuting the rest of the term keeps the contraction's value (z3)."""
+    op, sd = item
+    rng = random.Random(sd)
+    from adcgen.indices import Index, get_symbols, minimize_tensor_indices
+    from adcgen.sympy_objects import NonSymmetricTensor
+    spin_mode = rng.random() < 0.7
+
+    def sym(nm, spn):
+        return get_symbols(nm, spn)[0] if spn else get_symbols(nm)[0]
+    idx = []
+    for _ in range(rng.randint(2, 4)):
+        if idx and rng.random() < 0.15:
+            idx.append(rng.choice(idx))
+            continue
+        sp = rng.choice("ov")
+        idx.append(sym(rng.choice(POOL[sp][:7]), rng.choice("ab") if spin_mode else ""))
+    targets = {}
+    tsyms = []
+    for sp, full in (("o", "occ"), ("v", "virt")):
+        for spn in ("ab" if spin_mode else ("",)):
+            names = [nm for nm in POOL[sp][:4] if rng.random() < 0.35]
+            if names or rng.random() < 0.5:
+                targets[(full, spn)] = names
+                tsyms += [sym(nm, spn) for nm in names]
+    res = {"item": item, "in": f"minimize_tensor_indices({tuple(idx)}, {targets})", "target": " ".join(map(str, tsyms)),
+           "det": []}
+    out, perms = minimize_tensor_indices(tuple(idx), {k: list(v) for k, v in targets.items()})
+    res["out"] = f"{out}, {list(perms)}"
+    res["perms"] = str(list(perms))
+
+    def is_target(s_):
+        return s_.name in targets.get(s_.space_and_spin, [])
+    # the transpositions applied one after another reproduce the returned indices
+    cur = list(idx)
+    for pq in perms:
+        p_, q_ = pq
+        if is_target(p_) or is_target(q_):
+            res["det"].append(f"the permutation {pq} contains a target index")
+        cur = [q_ if x is p_ else p_ if x is q_ else x for x in cur]
+    if tuple(cur) != tuple(out):
+        res["det"].append(f"the permutations give {tuple(cur)}, returned {tuple(out)}")
+    if len(set(out)) != len(set(idx)):
+        res["det"].append("indices were merged")
+    # documented names: lowest names that are no target indices, per space and spin, in order
+    expect, pools = {}, {}
+    for s_ in idx:
+        if is_target(s_) or s_ in expect:
+            continue
+        key = s_.space_and_spin
+        if key not in pools:
+            pools[key] = lowest_names(len(idx), set(targets.get(key, [])), s_.space[0])
+        expect[s_] = sym(pools[key].pop(0), s_.spin)
+    want = tuple(expect.get(s_, s_) for s_ in idx)
+    if want != tuple(out):
+        res["det"].append(f"not the lowest non-target names: expected {want}")
+    # value: b(tensor indices) * c(all indices), the rest of the term permuted along
+    uniq = list(dict.fromkeys(idx))
+    rest_idx = uniq + [t_ for t_ in tsyms if t_ not in uniq]
+    extra = [s_ for s_ in out if s_ not in rest_idx]
+    A = NonSymmetricTensor("b", tuple(idx)) * NonSymmetricTensor("c", tuple(rest_idx))
+    rest_new = list(rest_idx)
+    for p_, q_ in perms:
+        rest_new = [q_ if x is p_ else p_ if x is q_ else x for x in rest_new]
+    B = NonSymmetricTensor("b", tuple(out)) * NonSymmetricTensor("c", tuple(rest_new))
+    tgt = [t_ for t_ in tsyms if t_ in rest_idx]
+    irs = [IR.expr_ir(A), IR.expr_ir(B)]
+    Tir = {IR.idx_ir(s_) for s_ in tgt}
+    cands = ([Model(2, 2, spin=True), Model(1, 1, spin=True)] if spin_mode
+             else [Model(3, 3), Model(2, 2), Model(2, 1), Model(1, 1)])
+    model = pick_model(irs, Tir, cands, budget=150000)
+    oc = compare(A, B, tgt, model, timeout_ms=TIMEOUT, seed=seed())
+    res.update(oc.as_dict())
+    res["model"], res["witness"] = model.tag, oc.witness
+    return res
+
+
 def run_case(item):
+    if item[0] == "minimize":
+        return run_minimize(item)
     op, sd = item
     rng = random.Random(sd)
     from adcgen import Expr
@@ -228,6 +310,7 @@ def main():
     ops = ["lowest", "generic", "permute", "subs"]
     base = seed() * 1000003 + 800
     items = [(ops[k % 4], base + k) for k in range(n)]
+    items += [("minimize", base + 50000 + k) for k in range(n // 3)]
     results = pmap(run_case, items, workers=8 if a.tier == "quick" else 12, limit=120)
     for r in results:
         st = r.get("status")
@@ -263,7 +346,7 @@ def main():
          "source_sha": driver.src_hash(*FILES)}]
     run.cov["bounds"] = {
         "crosshair": f"index maps with <= {3 if a.tier == 'quick' else 4} entries over {5 if a.tier == 'quick' else 6} ids; <= {3 if a.tier == 'quick' else 4} transpositions over 4 ids; n <= 3 and <= 3 used names from an 8-name pool; index strings of <= {4 if a.tier == 'quick' else 5} chars over 'ia12'",
-        "e1": "2-3 tensors, <= 5 contracted, <= 3 targets (explicit), models <= 3o3v (spin: 2o2v x ab)",
+        "e1": "2-3 tensors, <= 5 contracted, <= 3 targets (explicit), models <= 3o3v (spin: 2o2v x ab); minimize_tensor_indices: 2-4 tensor indices over occ / virt x (spinless | alpha / beta mixed), <= 4 target names per space and spin",
         "shapes": n, "z3_timeout_ms": TIMEOUT}
     run.cov["rule"] = "seeded generator; non-trivial = non-zero expression; distinct = distinct (op, input, map)"
     run.assumptions += [
